@@ -92,6 +92,7 @@ def universe(tab_lines):
         if t == "bool" or t is None:
             u.append(line(old, "y", t=t))
             u.append(line(old, "n", unset=True, t=t))
+            u.append(line(old, "foo", t=t))  # not a bool value: ignored under the new name, hence under the old one
         elif t == "int":
             u += [line(old, "7", t=t), line(old, "abc", t=t), line(old, "9", d=True, t=t)]
         elif t == "string":
@@ -135,7 +136,7 @@ def rewrite(lines, tab_lines):
         new, inv = m[ln["n"]]
         t = TYPES[new]
         v = ln["v"]
-        if inv and t == "bool":
+        if inv and t == "bool" and v in ("y", "n"):
             v = "n" if v == "y" else "y"
         out.append({"n": new, "v": v, "u": (v == "n") if t == "bool" else ln["u"], "d": False, "t": t})
     return out
